@@ -665,6 +665,58 @@ func ruleCancelOwnership(r *Run) {
 				n++
 				var bad ssa.Instruction
 				var check func(v ssa.Value)
+				var checkCell func(cell ssa.Value, depth int)
+				// a cell (local variable, or the same variable seen from a literal of this
+				// function) that holds the cancel function: loads are again only called or
+				// deferred. A function literal that captures the cell is still this function's
+				// own code when the literal goes nowhere — it is only deferred or called on the
+				// spot (the teardown `defer func() { …; cancel() }()`), never started as a
+				// goroutine, stored or passed on.
+				checkCell = func(cell ssa.Value, depth int) {
+					if depth > 4 {
+						bad = c
+						return
+					}
+					for _, r2 := range *cell.Referrers() {
+						switch y := r2.(type) {
+						case *ssa.UnOp:
+							check(y)
+						case *ssa.Store:
+							if y.Addr != cell {
+								bad = r2 // the cell's address is stored somewhere
+							}
+						case *ssa.DebugRef:
+						case *ssa.MakeClosure:
+							lit, ok := y.Fn.(*ssa.Function)
+							if !ok {
+								bad = r2
+								continue
+							}
+							for _, u := range *y.Referrers() {
+								switch z := u.(type) {
+								case *ssa.Defer:
+									if z.Call.Value != ssa.Value(y) {
+										bad = u
+									}
+								case *ssa.Call:
+									if z.Call.Value != ssa.Value(y) {
+										bad = u
+									}
+								case *ssa.DebugRef:
+								default:
+									bad = u // go statement, store, argument, return
+								}
+							}
+							for k, b := range y.Bindings {
+								if b == cell && k < len(lit.FreeVars) {
+									checkCell(lit.FreeVars[k], depth+1)
+								}
+							}
+						default:
+							bad = r2
+						}
+					}
+				}
 				check = func(v ssa.Value) {
 					for _, u := range *v.Referrers() {
 						switch x := u.(type) {
@@ -682,16 +734,8 @@ func ruleCancelOwnership(r *Run) {
 								bad = u
 								continue
 							}
-							// local cell: every load must again be only called/deferred here; no capture
-							for _, r2 := range *al.Referrers() {
-								switch y := r2.(type) {
-								case *ssa.UnOp:
-									check(y)
-								case *ssa.Store:
-								default:
-									bad = r2
-								}
-							}
+							// local cell: every load must again be only called/deferred here
+							checkCell(al, 0)
 						case *ssa.DebugRef:
 						default:
 							bad = u
@@ -701,7 +745,7 @@ func ruleCancelOwnership(r *Run) {
 				check(ex)
 				site := r.P.pos(c.Pos())
 				if bad == nil {
-					r.OK(rule, fnName(fn), "cancel func of "+calleeName(&c.Call), site, "only called/deferred by the function that created the context")
+					r.OK(rule, fnName(fn), "cancel func of "+calleeName(&c.Call), site, "only called/deferred by the function that created the context (or by a literal of it that is itself only deferred/called there)")
 				} else {
 					r.Bad(rule, fnName(fn), "cancel func of "+calleeName(&c.Call), r.P.pos(bad.Pos()), "the cancel function of a context leaves the function that created it (stored, captured or passed on): whoever receives it can cancel every unit of work that shares the context — e.g. one failing operation of a batch aborting the in-flight sub-requests of its siblings")
 				}
